@@ -333,6 +333,28 @@ def frozen_and_uri(st: Stats):
                 continue
             if not m or hashlib.sha256(open(real, "rb").read()).hexdigest() != m.group(1).lower() or not real.startswith(os.path.realpath(cache) + os.sep):
                 st.fail("C19:unlisted:frozen-ref-resolves-to-wrong-file", {"kind": "frozen", "ref": ref}, f"{ref!r} resolved to {real} whose bytes do not hash to the digest (or outside the cache)")
+        # ---- a pin that verified once must be verified again: same-length tamper with the old mtime restored
+        gp = os.path.join(cache, dg[:16] + ".oct.md")
+        try:
+            resolve_hermetic_standard("frozen@sha256:" + dg, Path(cache))
+            stt = os.stat(gp)
+            with open(gp, "wb") as fh:
+                fh.write(good.replace(b"CAPSULE", b"CAPSULX"))
+            os.utime(gp, ns=(stt.st_atime_ns, stt.st_mtime_ns))
+            st.evaluations += 1
+            st.nontrivial_exact += 1
+            st.labels["frozen_refs"] += 1
+            try:
+                p2 = resolve_hermetic_standard("frozen@sha256:" + dg, Path(cache))
+                if hashlib.sha256(open(str(p2), "rb").read()).hexdigest() != dg:
+                    st.fail("C19:unlisted:frozen-ref-resolves-to-wrong-file", {"kind": "frozen", "ref": "tamper-same-size-same-mtime"},
+                            "a frozen reference that verified once resolves again after the cache file was overwritten with same-length bytes and its mtime restored")
+            except Exception:
+                pass
+            with open(gp, "wb") as fh:
+                fh.write(good)
+        except Exception:
+            pass
         # ---- SOURCE_URI
         vb = os.path.join(base, "vocab")
         twin = os.path.join(base, "vocab-private")
